@@ -307,7 +307,8 @@ def S.runWaiters (s : S) : S :=
 
 /-- `toOffline` (client.go:566-597) -/
 def S.toOffline (s : S) : S :=
-  if s.link == .closed then s else
+  -- a closed client: only the read state of the connection is abandoned (F25)
+  if s.link == .closed then { s with readConn := false, big := none, peek := [] } else
   let s := s.closeConn
   -- a request blocked inside conn.Write is interrupted by the close and hands the lock back
   let s := match s.held with
@@ -520,6 +521,8 @@ def S.peekPacket (s : S) : S × PeekResult :=
 def S.discardLoop : Nat → Rd → Nat → Rd × Option RErr
   | 0, rd, _ => (rd, some .hard)
   | fuel + 1, rd, n =>
+    -- every round arms the read deadline first: on a connection that was closed locally that fails, nothing is skipped
+    if rd.closed then (rd, some .closed) else
     match rd.discard n with
     | (rd, _, none) => (rd, none)
     | (rd, done, some e) =>
@@ -802,7 +805,35 @@ def S.finishRs (s : S) (r : RsResult) : S × RsResult :=
   | .err e => if e.contains "closed" then (s.termCallbacks, r) else (s, r)
   | _ => (s, r)
 
-/-- the prologue of `readSlices` after the auto-connect (client.go:1189-1226), then the packet loop -/
+/-- the prologue of `readSlices` once no big message is pending any more: previous packet, owed acknowledgement, packet loop -/
+def S.rsRest (s : S) : S × RsResult :=
+  -- skip previous packet, if any: plain `bufr.Discard` of bytes that are in the buffer, no deadline, no error
+  let s := match s.rd? with
+    | some rd => s.setRd (rd.discard s.peek.length).1
+    | none => s
+  let s := { s with peek := [] }
+  -- acknowledge previous packet, if any
+  if !s.pendingAck.isEmpty then
+    let isRec := match s.pendingAck with | h :: _ => h.toNat / 16 == Facts.typePUBREC | [] => false
+    let (s, se) : S × Option Err :=
+      if isRec then
+        match s.pendingAck with
+        | _ :: _ :: hi :: lo :: _ => s.save (remoteKey (beU16 hi lo)) s.pendingAck
+        | _ => (s, none)
+      else (s, none)
+    match se with
+    | some e => s.finishRs (.err e)
+    | none =>
+      match s.readerWrite s.pendingAck with
+      | (s, some e) => s.toOffline.finishRs (.err e)
+      | (s, none) =>
+        let (s, r) := S.rsLoop s.rsFuel { s with pendingAck := [] }
+        s.finishRs r
+  else
+    let (s, r) := S.rsLoop s.rsFuel s
+    s.finishRs r
+
+/-- the prologue of `readSlices` after the auto-connect (client.go:1189-1240), then the packet loop -/
 def S.rsAfterConnect (s : S) : S × RsResult :=
   if !s.waiters.isEmpty && (!s.quietAfterConnect || s.waiters.length > 1) then (s, .unsupported "waiter races with the reader") else
   let s := s.runWaiters
@@ -811,31 +842,20 @@ def S.rsAfterConnect (s : S) : S × RsResult :=
     | some remaining => ({ s with big := none }).discard remaining
     | none => (s, none)
   match de with
-  | some e => s.toOffline.finishRs (.err e)
-  | none =>
-    -- skip previous packet, if any
-    let s := (s.discard s.peek.length).1
-    let s := { s with peek := [] }
-    -- acknowledge previous packet, if any
-    if !s.pendingAck.isEmpty then
-      let isRec := match s.pendingAck with | h :: _ => h.toNat / 16 == Facts.typePUBREC | [] => false
-      let (s, se) : S × Option Err :=
-        if isRec then
-          match s.pendingAck with
-          | _ :: _ :: hi :: lo :: _ => s.save (remoteKey (beU16 hi lo)) s.pendingAck
-          | _ => (s, none)
-        else (s, none)
-      match se with
-      | some e => s.finishRs (.err e)
-      | none =>
-        match s.readerWrite s.pendingAck with
-        | (s, some e) => s.toOffline.finishRs (.err e)
-        | (s, none) =>
-          let (s, r) := S.rsLoop s.rsFuel { s with pendingAck := [] }
-          s.finishRs r
-    else
-      let (s, r) := S.rsLoop s.rsFuel s
-      s.finishRs r
+  | some e =>
+    if e == mkErr ["netclosed"] then
+      -- closed by either Close, Disconnect, or failed write: as in the packet loop (F25)
+      let s := s.toOffline
+      match s.connect true with
+      | (s, .done (some e)) => s.finishRs (.err e)
+      | (s, .parkedDial) => (s, .parked)
+      | (s, .parkedHs) => (s, .parked)
+      | (s, .unsupported w) => (s, .unsupported w)
+      | (s, .done none) =>
+        if !s.waiters.isEmpty && (!s.quietAfterConnect || s.waiters.length > 1) then (s, .unsupported "waiter races with the reader") else
+        s.runWaiters.rsRest
+    else s.toOffline.finishRs (.err e)
+  | none => s.rsRest
 
 /-- `ReadSlices` (client.go:1170-1274): prologue, then the packet loop. A call
 that is parked (between packets, awaiting the CONNACK) continues where it was. -/
@@ -872,6 +892,7 @@ def S.readSlices (s : S) : S × RsResult :=
 def readAllLoop : Nat → Rd → Nat → Bytes → Rd × Except Err Bytes
   | 0, rd, _, _ => (rd, .error (mkErr ["other"]))
   | fuel + 1, rd, size, acc =>
+    if rd.closed then (rd, .error (mkErr [rerrTag .closed])) else      -- arming the deadline fails, nothing is read
     match rd.readFull (size - acc.length) with
     | (rd, bs, none) => (rd, .ok (acc ++ bs))
     | (rd, bs, some e) =>
